@@ -22,12 +22,17 @@ type gslot struct {
 	point  string
 	ended  bool
 	anon   bool // not announced by Spawn/Start; never reports End
+	// epoch is the index of the program (Run call of the harness) during
+	// which this goroutine's lineage was started by the main goroutine;
+	// children inherit it.
+	epoch int
 }
 
 type tokSlot struct {
-	used bool
-	tok  uint64
-	id   string
+	used  bool
+	tok   uint64
+	id    string
+	epoch int
 }
 
 // Sched owns every scheduling decision of one simulated run. All of its
@@ -44,6 +49,7 @@ type Sched struct {
 	off      bool // pass-through: yields no longer park (last-resort shutdown)
 	anonN    int
 	overflow bool
+	epoch    int // index of the program the main goroutine is running
 }
 
 func newSched() *Sched {
@@ -110,11 +116,15 @@ func (s *Sched) Spawn() uint64 {
 		id = parent.id + "." + itoa(parent.nchild)
 		parent.nchild++
 	}
+	ep := s.epoch
+	if parent != nil && parent.id != "0" {
+		ep = parent.epoch
+	}
 	s.nextTok++
 	tok := s.nextTok
 	for i := range s.toks {
 		if !s.toks[i].used {
-			s.toks[i] = tokSlot{used: true, tok: tok, id: id}
+			s.toks[i] = tokSlot{used: true, tok: tok, id: id, epoch: ep}
 			break
 		}
 	}
@@ -140,6 +150,32 @@ func (s *Sched) SpawnRoot(id string) uint64 {
 	s.mu.Unlock()
 	raceEnable()
 	return tok
+}
+
+// setEpoch is called by the main goroutine when it starts program i.
+//
+//go:norace
+func (s *Sched) setEpoch(i int) {
+	raceDisable()
+	s.mu.Lock()
+	s.epoch = i
+	s.mu.Unlock()
+	raceEnable()
+}
+
+// leftover reports whether the calling goroutine descends from a job that an
+// EARLIER program started (a job that outlived the Run call it belongs to).
+//
+//go:norace
+func (s *Sched) leftover() bool {
+	raceDisable()
+	g := goid()
+	s.mu.Lock()
+	sl := s.findLocked(g)
+	lo := sl != nil && sl.id != "0" && !sl.anon && sl.epoch < s.epoch
+	s.mu.Unlock()
+	raceEnable()
+	return lo
 }
 
 // pointOf returns the last scheduling point of the goroutine with that id.
@@ -171,9 +207,10 @@ func (s *Sched) Start(tok uint64) {
 	g := goid()
 	s.mu.Lock()
 	id := ""
+	ep := s.epoch
 	for i := range s.toks {
 		if s.toks[i].used && s.toks[i].tok == tok {
-			id = s.toks[i].id
+			id, ep = s.toks[i].id, s.toks[i].epoch
 			s.toks[i].used = false
 			break
 		}
@@ -183,6 +220,9 @@ func (s *Sched) Start(tok uint64) {
 		id = "~start" + itoa(s.anonN)
 	}
 	sl := s.allocLocked(g, id)
+	if sl != nil {
+		sl.epoch = ep
+	}
 	s.mu.Unlock()
 	raceEnable()
 	if sl != nil {
@@ -237,6 +277,7 @@ func (s *Sched) Yield(point string) {
 		sl = s.allocLocked(g, base)
 		if sl != nil {
 			sl.anon = true
+			sl.epoch = s.epoch
 		}
 	}
 	s.mu.Unlock()
